@@ -69,6 +69,15 @@ pub fn pool(seed: u64) -> Vec<Call> {
             }
         }
     }
+    // projection calls that are rejected (a face number beyond the twelve faces): their outcome must be the same in every
+    // history, and nothing they did on the way to the rejection may be visible to the calls after them
+    for face in [12u8, 13, 17, 23, 24, 59, 255] {
+        for (s, beyond) in [(0usize, false), (5, true), (7, false)] {
+            let (x, y) = sector_point(&mut rng, s, beyond);
+            v.push(Call::Inverse { x, y, face });
+            v.push(Call::Forward { theta: rng.range(0.0, 6.28), phi: rng.range(0.1, 3.0), face });
+        }
+    }
     let mut cells: Vec<u64> = vec![0];
     for i in 0..240 {
         let class = gen::POINT_CLASSES[i % gen::POINT_CLASSES.len()];
@@ -590,6 +599,51 @@ fn run(ctx: &Ctx) -> Run {
         }
     });
     run.merge(probe);
+
+    // (2d) memo-slot aliasing corpus: the memo of spherical triangles is indexed by 10 * face + triangle (+ 120 for the reflected
+    // triangles). For each of the 120 (face, triangle) pairs, in a fresh thread: first the call that fills the reflected slot of
+    // face f, then a call whose (out of range) face number f + 12 computes the very same index without the reflection offset.
+    // The second call must answer exactly what it answers alone (defect D8 answered from the other call's slot).
+    {
+        let mut rng = Rng::stream(ctx.seed, "C13.alias", 0);
+        for face in 0..12u8 {
+            for s in 0..10usize {
+                let (ax, ay) = sector_point(&mut rng, s, true);
+                let (bx, by) = sector_point(&mut rng, s, false);
+                let filler = Call::Inverse { x: ax, y: ay, face };
+                let probe = Call::Inverse { x: bx, y: by, face: face + 12 };
+                let (p1, p2) = (probe.clone(), probe.clone());
+                let alone = std::thread::spawn(move || {
+                    silence_panics();
+                    p1.exec()
+                })
+                .join();
+                let after = std::thread::spawn(move || {
+                    silence_panics();
+                    let _ = filler.exec();
+                    p2.exec()
+                })
+                .join();
+                run.evaluations += 1;
+                run.count("alias_corpus.pairs");
+                if let (Ok(a), Ok(b)) = (alone, after) {
+                    if a.digest() != b.digest() {
+                        run.violation(
+                            "C13.history",
+                            json!({"call": probe.to_text(), "preceded_by": (Call::Inverse { x: ax, y: ay, face }).to_text()}),
+                            format!(
+                                "`{}` returns [{}] when executed first in a fresh thread but [{}] right after `{}` (the two calls compute the same memo slot)",
+                                probe.to_text(),
+                                a.short(),
+                                b.short(),
+                                (Call::Inverse { x: ax, y: ay, face }).to_text()
+                            ),
+                        );
+                    }
+                }
+            }
+        }
+    }
 
     // (3) first-touch processes: the one-shot global initialisations race exactly once per process
     let n_proc = ctx.n(48, 600);
